@@ -41,17 +41,21 @@ type Store interface {
 var Kinds = []string{"ctl", "rmap", "nmap", "nstruct", "rstruct"}
 
 func New(kind string) (Store, error) {
-	switch kind {
+	base, mask, err := SplitKind(kind)
+	if err != nil {
+		return nil, err
+	}
+	switch base {
 	case "ctl":
 		return &Ctl{}, nil
 	case "rmap":
-		return &RMap{}, nil
+		return &RMap{hooks: mask}, nil
 	case "nmap":
-		return &RMap{node: true}, nil
+		return &RMap{node: true, hooks: mask}, nil
 	case "nstruct":
-		return &Struct{useNode: true}, nil
+		return &Struct{useNode: true, hooks: mask}, nil
 	case "rstruct":
-		return &Struct{}, nil
+		return &Struct{hooks: mask}, nil
 	}
 	return nil, fmt.Errorf("unknown store kind %q", kind)
 }
@@ -89,16 +93,21 @@ func (c *Ctl) Load(s *schema.Node, t *model.Tree) error {
 // RMap is nodeutil.ReflectChild (node=false) or nodeutil.Node (node=true) over
 // map[string]interface{}.
 type RMap struct {
-	node bool
+	node  bool
+	hooks uint32 // pass-through hooks installed on the root node (hooks.go)
 	s    *schema.Node
 	m    map[string]interface{}
 }
 
 func (r *RMap) Kind() string {
+	k := "rmap"
 	if r.node {
-		return "nmap"
+		k = "nmap"
 	}
-	return "rmap"
+	if r.hooks != 0 {
+		k += "+hooks"
+	}
+	return k
 }
 
 func (r *RMap) Caps() schema.Caps {
@@ -116,7 +125,12 @@ func (r *RMap) RealCode() bool         { return true }
 
 func (r *RMap) Root() node.Node {
 	if r.node {
-		return &nodeutil.Node{Object: r.m}
+		n := &nodeutil.Node{Object: r.m}
+		hookNode(n, r.hooks)
+		return n
+	}
+	if r.hooks != 0 {
+		return hookReflect(r.hooks).Object(r.m)
 	}
 	return nodeutil.ReflectChild(r.m)
 }
